@@ -5,7 +5,8 @@
     vectors and tied to the Go code by the correspondence check. *)
 From Coq Require Import List NArith ZArith.
 From Coq Require Import Strings.Byte.
-From GoBT Require Import lib.Bytes model.ScriptNum model.Interp proofs.ScriptNumProofs proofs.ShiftProofs proofs.InterpTotal.
+From GoBT Require Import lib.Bytes lib.Ripemd160 model.ScriptNum model.Interp model.CheckSig proofs.ScriptNumProofs proofs.ShiftProofs proofs.InterpTotal
+  model.Tx proofs.CheckSigProofs proofs.MultisigProofs spec.VerifyScriptSpec proofs.VerifyRefine.
 Import ListNotations.
 
 (** script numbers: sign-magnitude little-endian, minimal *)
@@ -102,6 +103,48 @@ Theorem C05_early_return_only_after_genesis : forall so c ops idx s acc s' acc',
   sigops_ok so -> run_ops so c ops idx s acc = (SReturn s', acc') -> after_genesis c = true /\ cond s' = [].
 Proof. intros so c ops idx s acc s' acc' H. exact (run_ops_return so c H ops idx s acc s' acc'). Qed.
 Print Assumptions C05_early_return_only_after_genesis.
+
+(** ** Composition of the scripts: the verdict is the node's VerifyScript (spec/VerifyScriptSpec.v) — the
+    unlocking script, the locking script and (pay-to-script-hash outputs created before Genesis only) the
+    redeem script are each evaluated on the data stack the previous one left, with an alt stack, conditional
+    state, opcode count and code-separator position of their own; a top-level OP_RETURN after Genesis ends
+    one script successfully; zero-length scripts are skipped; the P2SH push-only rule and the redeem script
+    apply before Genesis only.  (This statement was refuted by the model of the code as it stood: the alt stack
+    survived an early return, a zero-length locking script after an early return was an error, and the
+    push-only rule was applied after Genesis — three defects repaired in /repo.) *)
+Theorem C05_verdict_is_verify_script : forall so i,
+  sigops_ok so -> sigops_els_ok so -> fst (engine_execute so i) = verify_entry so i.
+Proof. exact engine_execute_refines. Qed.
+Print Assumptions C05_verdict_is_verify_script.
+
+(** instances: without a transaction (signature opcodes rejected by the parser) and with the signature
+    opcodes of model/CheckSig.v *)
+Theorem C05_verdict_is_verify_script_plain : forall i, fst (engine_execute no_sigops i) = verify_entry no_sigops i.
+Proof. intros i. apply engine_execute_refines; [exact no_sigops_ok|exact no_sigops_els_ok]. Qed.
+Print Assumptions C05_verdict_is_verify_script_plain.
+Theorem C05_verdict_is_verify_script_signatures : forall orc t i inp, tx_ctx_ok t i ->
+  fst (engine_execute (mk_sigops orc t i) inp) = verify_entry (mk_sigops orc t i) inp.
+Proof. exact engine_execute_refines_mk. Qed.
+Print Assumptions C05_verdict_is_verify_script_signatures.
+
+(** the alt stack does not survive a script boundary, whichever way the script ends; a zero-length locking
+    script is skipped; after Genesis a P2SH-shaped output is an ordinary hash comparison *)
+Example C05_script_boundaries :
+  verify_entry no_sigops (mkExecInput [x51; x6b; x6a] [x6c] 16384 false false 0 0 0) = VErr /\
+  verify_entry no_sigops (mkExecInput [x51; x6b] [x6c] 16384 false false 0 0 0) = VErr /\
+  verify_entry no_sigops (mkExecInput [x51; x6a] [] 16384 false false 0 0 0) = VOk /\
+  verify_entry no_sigops (mkExecInput [x61; x01; x51] ([xa9; x14] ++ hash160 [x51] ++ [x87]) 16385 false false 0 0 0) = VOk /\
+  verify_entry no_sigops (mkExecInput [x61; x01; x51] ([xa9; x14] ++ hash160 [x51] ++ [x87]) 1 false false 0 0 0) = VErr /\
+  verify_entry no_sigops (mkExecInput [x01; x51] ([xa9; x14] ++ hash160 [x51] ++ [x87]) 1 false false 0 0 0) = VOk.
+Proof. vm_compute. repeat split; reflexivity. Qed.
+
+(** the parser's "top level" is the run-time one: OP_VERIF / OP_VERNOTIF open nothing, so an OP_RETURN after a
+    skipped OP_VERIF ... OP_ENDIF ends the script whatever bytes follow *)
+Example C05_verif_opens_nothing :
+  fst (engine_execute no_sigops (mkExecInput [x51] [x00; x63; x65; x68; x51; x6a; x4c] 16384 false false 0 0 0)) = VOk /\
+  fst (engine_execute no_sigops (mkExecInput [x51] [x00; x63; x66; x68; x51; x6a; x02] 16384 false false 0 0 0)) = VOk /\
+  fst (engine_execute no_sigops (mkExecInput [x51] [x00; x63; x63; x68; x51; x6a; x4c] 16384 false false 0 0 0)) = VErr.
+Proof. vm_compute. repeat split; reflexivity. Qed.
 
 (** non-vacuity / sanity on concrete programs in both eras *)
 Example C05_examples :
